@@ -338,10 +338,10 @@ class Runner:
         lines = text.splitlines()
         first = full.split('\n', 1)[0][:8192]
         msg = ''
-        for ln in lines[1:]:
-            mm = re.match(r'\s*\^ (.*)', ln)
-            if mm:
-                msg = mm.group(1)
+        for ln in full.split('\n')[1:6]:
+            ln = ln.lstrip(' ')
+            if ln.startswith('^ '):
+                msg = ln[2:600]
                 break
         r['msg'] = msg
         # the file name may contain ':'; the input path is known
@@ -411,7 +411,9 @@ class Runner:
                 r['site'] = 'no-output'
             else:
                 rc, o, e = sh(['as', out, '-o', os.path.join(d, 'out.o')], timeout=120)
-                if rc != 0:
+                if rc != 0 and re.search(rb'\basm\b|__asm__', case.get('data') or b''):
+                    r['detail'] = 'as-rejects-user-asm'       # the text inside asm("…") is the user's, not the compiler's
+                elif rc != 0:
                     em = [l for l in e.splitlines() if 'Error' in l or 'error' in l]
                     r['cls'] = 'as-reject'
                     r['site'] = norm_msg(re.sub(r'^.*?Error: ', '', em[0])) if em else 'as'
@@ -420,9 +422,16 @@ class Runner:
 
     def gdb_site(self, case, d, src):
         c, out = self.cmd(self.plain, src, d, case)
-        rc, o, e = sh(['gdb', '-batch', '-nx', '-ex', 'run', '-ex', 'bt 12', '--args'] + c, timeout=60, env=self.base_env)
+        rc, o, e = sh(['gdb', '-batch', '-nx', '-ex', 'run', '-ex', 'bt 300', '--args'] + c, timeout=90, env=self.base_env,
+                      cwd=(case.get('cwd') or '').replace('@SNAP@', self.ctx.snapshot) or None)
+        o = '\n'.join(l[:400] for l in o.splitlines())
         fr = innermost_frame(o)
-        return fr
+        cnt = {}
+        for m in FRAME.finditer(o):
+            if m.group(3) in CHIBI_FILES:
+                cnt[m.group(1)] = cnt.get(m.group(1), 0) + 1
+        rec = max(cnt.items(), key=lambda kv: kv[1]) if cnt else None
+        return fr, rec
 
     def run_case(self, case, which='both', keep=False):
         """-> outcome dict: cls, site, sig, plain{...}, asan{...}"""
@@ -447,8 +456,13 @@ class Runner:
                         if a['cls'] == 'sanitizer':
                             final['cls'] = 'signal'
                     elif which == 'both':
-                        fr = self.gdb_site(case, d, src)
-                        if fr:
+                        fr, rec = self.gdb_site(case, d, src)
+                        if rec and rec[1] >= 40:
+                            # the -O0 binary overflowed its stack where the sanitized -O1 build did not
+                            final['cls'] = 'stack-overflow'
+                            final['site'] = rec[0]
+                            final['detail'] += f' gdb: {rec[1]} frames of {rec[0]} in the innermost 300'
+                        elif fr:
                             final['site'] = fr[0]
                             final['detail'] += f' gdb {fr[1]}:{fr[2]}'
             elif a and a['cls'] in BAD:
@@ -615,12 +629,18 @@ def load_regress():
     return out
 
 
+GCC_CONSTRAINT = re.compile(r'excess elements|braces around scalar|incompatible pointer|without a cast|read-only|'
+                            r'initializer element is not|discards .* qualifier|incompatible types|too many arguments|too few arguments|'
+                            r'implicit declaration|returning .* from a function with|initialized field overwritten')
+
+
 def gcc_accepts(ctx, data, d, opts=()):
     p = os.path.join(d, 'g.c')
     with open(p, 'wb') as f:
         f.write(data)
-    rc, o, e = sh(['gcc', '-std=c11', '-fsyntax-only', '-w', '-x', 'c'] + list(opts) + [p], timeout=60)
-    return rc == 0
+    rc, o, e = sh(['gcc', '-std=c11', '-fsyntax-only', '-x', 'c'] + list(opts) + [p], timeout=60)
+    # gcc only warns about some constraint violations; a program with one of them is not "valid"
+    return rc == 0 and not GCC_CONSTRAINT.search(e)
 
 
 def campaign(ctx, corr, cases, runner, km, budget_shrink=120, label=''):
@@ -658,6 +678,8 @@ def campaign(ctx, corr, cases, runner, km, budget_shrink=120, label=''):
         if res.get('ubsan_only'):
             corr.count('ubsan_only')
             corr.count('ubsan_only:' + re.sub(r'[^\w@:.-]+', '_', res['ubsan_only'])[:70])
+        if f['cls'] == 'ok' and f.get('detail'):
+            corr.count('ok:' + f['detail'])
         if f['cls'] == 'diag':
             if f.get('detail'):
                 corr.count('diag:' + f['detail'])
